@@ -38,7 +38,8 @@ SPEC = {
     "assumptions": [
         "start_pos is generated only when valid: no element the traversal must yield lies before it, and (as the API asserts) 0 <= start_pos < len(coords)",
         "the domain of shape/active iteration is what getShape()/getActive() report (their correctness is C14's)",
-        "decreasing projections are generated for fibers with leaf default 0 (the reversed view is a fresh lazy fiber)",
+        "decreasing projections are generated for every leaf default and for interior fibers (the reversed view judged emptiness by "
+        "default 0 until repository fix 9593640)",
         "prune predicates return True/False only",
         "an abandoned traversal has visited exactly the coordinates it has delivered (k next() calls = k visits; k = 0 means the traversal object was only obtained)",
         "a free upper-level co-iteration operand holds at least one sub-fiber (a free fiber can tell that its default is a fiber only from a payload it stores); empty upper-level operands are tensor-owned",
@@ -714,8 +715,10 @@ def _run_trav(ctx, mode, args):
         got = _take(mon, it, cap, what, k)
     elif mode == "project":
         k, dd, iv, p = args["k"], args["d"], args.get("interval"), args.get("p")
-        if cfg["fmt"] == "U" or (k < 0 and (d != 0 or interior)):
+        if cfg["fmt"] == "U":
             return 0
+        if k < 0 and d != 0:
+            mon.count("decreasing_projections_nonzero_default")
         fn = (lambda c, k=k, dd=dd: k * c + dd)
         mon.count("project_traversals")
         base = list(nonempty)
